@@ -73,6 +73,17 @@ def fit(ctx, vine_type, df, truncated, sentinel='pos', random_state=None):
     return model, p
 
 
+REFUSAL_SITES = ('base.py:fit', 'base.py:check_marginal', 'base.py:check_theta', 'gumbel.py:compute_theta')
+
+
+def is_refusal(exc):
+    """A vine fit may refuse a table with ValueError when a pair copula cannot be calibrated (constant or
+    out-of-range pseudo-observations from near-duplicate columns, inadmissible theta).  Any other
+    ValueError - e.g. one raised while assembling the trees - is not a refusal."""
+    from vmon.core import exc_site
+    return isinstance(exc, ValueError) and exc_site(exc) in REFUSAL_SITES
+
+
 def edge_vars(e):
     return frozenset([int(e.L), int(e.R)]) | frozenset(int(x) for x in e.D)
 
